@@ -60,7 +60,7 @@ CLAIMED.update({
          "Design level: no early completion, exactly 1+2P bytes emitted, byte conservation, only trailing bytes reach the application, both sides eventually complete. Code level: real x real and real x legacy peer under whole/boundary/random/1-byte fragmentation with trailing data.",
          "TLC; harness logger", "5 C05"),
  "C11": (EX, "Trace_Handshake digest rules in TLA+ (offset functions, role->key table, signature vs echo) evaluated by TLC over facts about an uninterpreted HMAC-SHA256 supplied by an independent harness implementation; all 728 received offsets x 2 schemes x 2 roles enumerated, own offsets through the deterministic fill hook",
-         "Exploration level, exhaustive over the received-offset space; own offsets are sampled (count of distinct positions seen is in the evidence).",
+         "Exploration level, exhaustive over the received-offset space and (since round 2, by re-seeding the fill hook until every offset was generated) over the own-offset space of both roles; the random remainder of the packets is sampled.",
          "harness HMAC-SHA256 (FIPS 180-4/RFC 2104, self-checked against RFC 4231); fill hook; TLC", "5 C11"),
  "C20": (MC, "Apalache: clock laws for ALL (a,d) in u32 x u32 on a transcription of time.rs (ClockFlat); TLAPS: the same laws deductively (ClockFlatProof, 211 obligations) and correctness of the limb arithmetic U32 for Base = 65536 (U32Apa, with a refuted negative control); TLC: limb refinement exhaustively for Base = 16 (MC_Clock); Trace_Clock recomputes every operator result of the real RtmpTimestamp on boundary and random pairs",
          "Symbolic proof over the full 2^64 input space for the transcription; the transcription is bound to the code by trace validation on the boundary product (distances 2^31-2 .. 2^31+2, wraps) through all operators incl. u32 on either side.",
